@@ -104,12 +104,15 @@ def json_oracle(net, type_name, tree, rendered):
 
 
 def without_present_empty(net, tree):
-	"""The value with every present-and-empty conditional array member of the top-level struct taken for absent."""
-	if not isinstance(tree, tuple):
+	"""The value with every present-and-empty conditional array member (at any depth) taken for absent."""
+	if isinstance(tree, list):
+		return [without_present_empty(net, item) for item in tree]
+	if not isinstance(tree, tuple) or tree[1] not in net.by_name:
 		return tree
 	model = net.by_name[tree[1]]
 	conditional = {field.name for field in codec.settable_fields(model) if field.is_conditional and codec.kind(field.field_type) == 'Array'}
-	return ('S', tree[1], [(name, None if name in conditional and value in (b'', []) else value) for name, value in tree[2]])
+	return ('S', tree[1], [
+		(name, None if name in conditional and value in (b'', []) else without_present_empty(net, value)) for name, value in tree[2]])
 
 
 def run_network(check, net, per_class):
